@@ -107,7 +107,8 @@ def show(t, depth=0):
     if k == "loopvar":
         return "loopvar(%s,%s)" % (t[2], t[3])
     if k == "resp":
-        return "%s[%s]" % (t[1], ", ".join("%s:%s" % (h, show(m, d)) for h, m in t[2]))
+        return "%s[%s]%s" % (t[1], ", ".join("%s:%s" % (h, show(m, d)) for h, m in t[2]),
+                             (" data=" + show(t[3], d)) if t[3] is not None else "")
     if k == "discr":
         return "discr(%s)" % show(t[1], d)
     return "%s(%s)" % (k, ", ".join(show(x, d) if isinstance(x, tuple) else str(x) for x in t[1:]))
